@@ -1,6 +1,9 @@
 (* C02 - Layered obfuscation round-trips.  PARTIAL (see DESIGN.md): (1) per layer, the codec law: decoding the encoder's image yields the payload, for ALL payloads of the layer's domain; (2) the engine part for an arbitrary registry (a decoded hit's children are exactly a scan of its value with one less depth; flatten splices the flattened child, re-quoted for string types) - the chain law itself is in Proofs/ChainProofs.v when present; (3) what each shipped decoder reports for its match list.  That the shipped regexes select exactly the encoded span under neutral embedding and that no other decoder ties or encloses it is validated by harness/props/C02.py (stacks up to the depth limit) and by the whole-scan model = implementation comparison.  Statements pinned by harness/mkprop.py. *)
 From MD Require Import Lib.Base Model.Node Model.Engine Model.Flatten Model.Codec.Base64 Model.Codec.Hex Model.Codec.Utf Model.Codec.Percent Model.Dec.XmlChr Model.Dec.Carets Model.Dec.ReLib Model.Dec.StrOps Model.Dec.B64Hex.
-From MD Require Import Proofs.Base64Proofs Proofs.HexProofs Proofs.UtfProofs Proofs.PercentProofs Proofs.XmlChrProofs Proofs.CaretsProofs Proofs.EscDecProofs Proofs.StrOpsProofs Proofs.B64HexProofs Proofs.EngineRefine Proofs.EngineDepth Proofs.FlattenProofs.
+From MD Require Import Proofs.Base64Proofs Proofs.HexProofs Proofs.UtfProofs Proofs.PercentProofs Proofs.XmlChrProofs Proofs.CaretsProofs Proofs.EscDecProofs Proofs.StrOpsProofs Proofs.B64HexProofs Proofs.EngineRefine Proofs.EngineDepth Proofs.FlattenProofs Proofs.ChainProofs.
+From MD Require Import Model.EngineR Model.Default Model.Flatten Proofs.DefaultWf Proofs.DefaultEngine Proofs.ChainProofs.
+From MD Require Import Regex.LocalityProofs Proofs.RoundTrip.
+From MD Require Import Regex.LocalityProofs Proofs.RoundTrip Proofs.RoundTrip2.
 
 (* base64 (bare and the three call forms): a2b_base64 (b64_encode p) = p for every payload *)
 Theorem C02_layer_base64 : forall p : bytes, wf_bytes p -> a2b_base64 (b64_encode p) = Ok p.
@@ -42,7 +45,7 @@ Proof. exact py_replace_subst_all. Qed.
 Print Assumptions C02_layer_replace.
 
 (* string concatenation *)
-Theorem C02_layer_concat : forall (c : chain) (inner : list Backtrack.mtch), map (fun mi : Backtrack.mtch => span mi 0) inner = junction_spans (1 + blen (c_l1 c)) (c_rest c) -> concat_value (chain_text c) inner = chain_value c.
+Theorem C02_layer_concat : forall (c : StrOpsProofs.chain) (inner : list Backtrack.mtch), map (fun mi : Backtrack.mtch => span mi 0) inner = junction_spans (1 + blen (c_l1 c)) (c_rest c) -> concat_value (chain_text c) inner = chain_value c.
 Proof. exact concat_value_chain. Qed.
 Print Assumptions C02_layer_concat.
 
@@ -77,6 +80,103 @@ Print Assumptions C02_flatten_spec.
 Theorem C02_flatten_quotes : forall (n : node) (x : triple), In x (selected flatten (n_val n) (n_kids n) 0) -> exists c : node, In c (n_kids n) /\ t_st x = n_st c /\ t_en x = n_en c /\ (endswith (n_ty c) (s2b "string") = true -> t_rep x = [34%N] ++ flatten c ++ [34%N]) /\ (endswith (n_ty c) (s2b "string") = false -> t_rep x = flatten c).
 Proof. exact flatten_quotes. Qed.
 Print Assumptions C02_flatten_quotes.
+
+(* ENGINE CHAIN LAW, arbitrary registry: when the layer's hit is dominant at the searched value (it decodes, every other reported hit lies inside its span and does not sort before it), the scanned node gets exactly ONE child: that hit, scanned with one less depth *)
+Theorem C02_engine_dominant : forall (search : bytes -> list node) (d : nat) (n h h2 : node), n_kids n = [] -> dominant search (n_ty n) (n_val n) h -> scan_node search d h = Ok h2 -> scan_node search (S d) n = Ok (set_kids n [h2]).
+Proof. exact scan_dominant. Qed.
+Print Assumptions C02_engine_dominant.
+
+(* one nested node per layer, outermost first, headers (type, value, label, span) exactly the layers' hits *)
+Theorem C02_engine_chain : forall (search : bytes -> list node) (hs : list node) (d : nat) (n t : node), chain search d (n_ty n) (n_val n) hs -> n_kids n = [] -> scan_node search d n = Ok t -> nested t hs.
+Proof. exact scan_chain. Qed.
+Print Assumptions C02_engine_chain.
+
+Theorem C02_engine_chain_scan : forall (search : bytes -> list node) (depth : Z) (data : bytes) (hs : list node) (t : node), 0 < depth -> chain search (Z.to_nat depth) [] data hs -> scan search depth data = Ok t -> n_val t = data /\ nested t hs.
+Proof. exact scan_chain_scan. Qed.
+Print Assumptions C02_engine_chain_scan.
+
+Theorem C02_chain_values : forall (hs : list node) (t : node), nested t hs -> map n_val (ChainProofs.spine t (Datatypes.length hs)) = map n_val hs.
+Proof. exact nested_values. Qed.
+Print Assumptions C02_chain_values.
+
+Theorem C02_flatten_single : forall (t : label) (v : list N) (o : label) (s e : Z) (c : node), 0 <= n_st c -> flatten c <> slice v (n_st c) (n_en c) -> flatten (Node t v o s e [c]) = slice v 0 (n_st c) ++ quote_if_string (n_ty c) (flatten c) ++ slice_from v (n_en c).
+Proof. exact flatten_single_child. Qed.
+Print Assumptions C02_flatten_single.
+
+(* flattening the chain = the text with the innermost flattened value substituted at every level (re-quoted for string types) *)
+Theorem C02_flatten_chain : forall (hs : list node) (t : node), nested t hs -> substituted (n_val t) hs (flatten (innermost t (Datatypes.length hs))) -> flatten t = flat_of (n_val t) hs (flatten (innermost t (Datatypes.length hs))).
+Proof. exact flatten_chain. Qed.
+Print Assumptions C02_flatten_chain.
+
+Theorem C02_scan_flatten_chain : forall (search : bytes -> list node) (hs : list node) (h n t : node), chain search (Datatypes.length (hs ++ [h])) (n_ty n) (n_val n) (hs ++ [h]) -> n_kids n = [] -> scan_node search (Datatypes.length (hs ++ [h])) n = Ok t -> substituted (n_val n) (hs ++ [h]) (n_val h) -> flatten t = subst_chain (n_val n) (hs ++ [h]).
+Proof. exact scan_flatten_chain. Qed.
+Print Assumptions C02_scan_flatten_chain.
+
+(* the engine chain law at scan_default itself *)
+Theorem C02_shipped_chain : forall (pe_size : bytes -> Z) (xortool : bytes -> list bytes) (extra : label -> option (bytes -> res (list node))) (kwdir : Registry.dtree) (depth : Z) (data : bytes) (hs : list node) (t : node), 0 < depth -> chain (search_of (search_default pe_size xortool extra RegistryTable.decoder_modules kwdir)) (Z.to_nat depth) [] data hs -> scan_default pe_size xortool extra RegistryTable.decoder_modules kwdir depth data = Ok t -> n_val t = data /\ nested t hs.
+Proof. exact shipped_scan_chain. Qed.
+Print Assumptions C02_shipped_chain.
+
+Theorem C02_shipped_flatten_chain : forall (pe_size : bytes -> Z) (xortool : bytes -> list bytes) (extra : label -> option (bytes -> res (list node))) (kwdir : Registry.dtree) (hs : list node) (h : node) (data : bytes) (t : node), chain (search_of (search_default pe_size xortool extra RegistryTable.decoder_modules kwdir)) (Datatypes.length (hs ++ [h])) [] data (hs ++ [h]) -> scan_default pe_size xortool extra RegistryTable.decoder_modules kwdir (Z.of_nat (Datatypes.length (hs ++ [h]))) data = Ok t -> substituted data (hs ++ [h]) (n_val h) -> flatten t = subst_chain data (hs ++ [h]).
+Proof. exact shipped_scan_flatten_chain. Qed.
+Print Assumptions C02_shipped_flatten_chain.
+
+Theorem C02_shipped_node_chain : forall (pe_size : bytes -> Z) (xortool : bytes -> list bytes) (extra : label -> option (bytes -> res (list node))) (kwdir : Registry.dtree) (hs : list node) (d : nat) (n t : node), chain (search_of (search_default pe_size xortool extra RegistryTable.decoder_modules kwdir)) d (n_ty n) (n_val n) hs -> n_kids n = [] -> scan_node_r (search_default pe_size xortool extra RegistryTable.decoder_modules kwdir) d n = Ok t -> nested t hs /\ hdr_eq t n.
+Proof. exact shipped_scan_node_chain. Qed.
+Print Assumptions C02_shipped_node_chain.
+
+(* PER-LAYER round trip INCLUDING span selection by the matcher: END-TO-END ROUND TRIP (Proofs/RoundTrip.v): for EVERY payload, the encoded form embedded after any neutral prefix (no byte that can start a match of the pattern) and before ANY suffix is found by the model's matcher on the regenerated pattern, as ONE node with exactly the form's span and the payload as value; later nodes start after it.  `Hang` (matcher fuel on the arbitrary suffix) is the only alternative. *)
+Theorem C02_layer_atob_found : forall (pre : list N) (p : bytes) (suf : list N) (q q' : N), wf_bytes p -> p <> [] -> is_quote q -> is_quote q' -> (Datatypes.length (b64_encode p) + 64 <= Backtrack.default_fuel)%nat -> neutral Regexes.RE_base64_ATOB_RE pre = true -> let form := s2b "atob(" ++ [q] ++ b64_encode p ++ [q'] ++ s2b ")" in let data := pre ++ form ++ suf in find_atob data = Hang \/ (exists rest : list node, find_atob data = Ok (Node (s2b "javascript.string") p ENC_B64 (blen pre) (blen pre + blen form) [] :: rest) /\ Forall (fun nd : node => blen pre + blen form <= n_st nd) rest).
+Proof. exact find_atob_roundtrip. Qed.
+Print Assumptions C02_layer_atob_found.
+
+Theorem C02_layer_Base64Decode_found : forall (nm : bytes) (pre : list N) (p : bytes) (suf : list N) (q q' : N), lower nm = s2b "base64decode(" -> wf_bytes p -> p <> [] -> is_quote q -> is_quote q' -> (Datatypes.length (b64_encode p) + 64 <= Backtrack.default_fuel)%nat -> neutral Regexes.RE_base64_BASE64DECODE_RE pre = true -> let form := nm ++ [q] ++ b64_encode p ++ [q'] ++ s2b ")" in let data := pre ++ form ++ suf in find_Base64Decode data = Hang \/ (exists rest : list node, find_Base64Decode data = Ok (Node (s2b "vba.string") p ENC_B64 (blen pre) (blen pre + blen form) [] :: rest) /\ Forall (fun nd : node => blen pre + blen form <= n_st nd) rest).
+Proof. exact find_Base64Decode_roundtrip. Qed.
+Print Assumptions C02_layer_Base64Decode_found.
+
+Theorem C02_layer_FromBase64String_found : forall (nm : bytes) (pre : list N) (p : bytes) (suf : list N) (q q' : N), lower nm = s2b "frombase64string(" -> wf_bytes p -> p <> [] -> is_quote q -> is_quote q' -> (Datatypes.length (b64_encode p) + 64 <= Backtrack.default_fuel)%nat -> neutral Regexes.RE_base64_FROMB64STRING_RE pre = true -> neutral Regexes.RE_xor_helper_XOR_RE pre = true -> neutral Regexes.RE_xor_helper_XOR_RE suf = true -> let form := nm ++ [q] ++ b64_encode p ++ [q'] ++ s2b ")" in let data := pre ++ form ++ suf in find_FromBase64String data = Hang \/ (exists rest : list node, find_FromBase64String data = Ok (Node (s2b "powershell.bytes") p ENC_B64 (blen pre) (blen pre + blen form) [] :: rest) /\ Forall (fun nd : node => blen pre + blen form <= n_st nd) rest).
+Proof. exact find_FromBase64String_roundtrip. Qed.
+Print Assumptions C02_layer_FromBase64String_found.
+
+Theorem C02_layer_FromHexString_found : forall (nm : bytes) (pre : list N) (p : bytes) (suf : list N), lower nm = s2b "fromhexstring(" -> wf_bytes p -> (10 <= Datatypes.length p)%nat -> (Datatypes.length (hexlify p) + 64 <= Backtrack.default_fuel)%nat -> neutral Regexes.RE_hex_FROMHEXSTRING_RE pre = true -> neutral Regexes.RE_xor_helper_XOR_RE pre = true -> neutral Regexes.RE_xor_helper_XOR_RE suf = true -> let form := nm ++ s2b "'" ++ hexlify p ++ s2b "')" in let data := pre ++ form ++ suf in find_FromHexString data = Hang \/ (exists rest : list node, find_FromHexString data = Ok (Node (s2b "powershell.bytes") p ENC_HEX (blen pre) (blen pre + blen form) [] :: rest) /\ Forall (fun nd : node => blen pre + blen form <= n_st nd) rest).
+Proof. exact find_FromHexString_roundtrip. Qed.
+Print Assumptions C02_layer_FromHexString_found.
+
+Theorem C02_layer_unescape_found : forall (pre : list N) (p : bytes) (suf : list N), wf_bytes p -> (Datatypes.length (quote_all p) + 64 <= Backtrack.default_fuel)%nat -> neutral Regexes.RE_javascript_UNESCAPE_RE pre = true -> let form := s2b "unescape('" ++ quote_all p ++ s2b "')" in let data := pre ++ form ++ suf in EscDec.find_unescape data = Hang \/ (exists rest : list node, EscDec.find_unescape data = Ok (Node (s2b "string") p (s2b "function.unescape") (blen pre) (blen pre + blen form) [] :: rest) /\ Forall (fun nd : node => blen pre + blen form <= n_st nd) rest).
+Proof. exact find_unescape_roundtrip. Qed.
+Print Assumptions C02_layer_unescape_found.
+
+Theorem C02_layer_utf16_found : forall (pre units : list N) (suf : bytes), forallb utf16_unit units = true -> (7 <= Datatypes.length units)%nat -> utf16_stop suf = true -> (Datatypes.length (interleave0 units) + 64 <= Backtrack.default_fuel)%nat -> neutral Regexes.RE_codec_UTF16_RE pre = true -> let form := interleave0 units in let data := pre ++ form ++ suf in EscDec.find_utf16 data = Hang \/ (exists rest : list node, EscDec.find_utf16 data = Ok (Node [] (flat_map utf8_latin1 units) (s2b "codec.uft-16") (blen pre) (blen pre + blen form) [] :: rest) /\ Forall (fun nd : node => blen pre + blen form <= n_st nd) rest).
+Proof. exact find_utf16_roundtrip. Qed.
+Print Assumptions C02_layer_utf16_found.
+
+Theorem C02_layer_xml_found : forall (pre : list N) (p suf : bytes), wf_bytes p -> (5 <= Datatypes.length p)%nat -> xml_stop suf = true -> (Datatypes.length (xml_form p) + 64 <= Backtrack.default_fuel)%nat -> neutral Regexes.RE_xml_XML_ESCAPE_RE pre = true -> let form := xml_form p in let data := pre ++ form ++ suf in EscDec.find_xml_hex data = Hang \/ (exists rest : list node, EscDec.find_xml_hex data = Ok (Node [] p (s2b "unescape.xml") (blen pre) (blen pre + blen form) [] :: rest) /\ Forall (fun nd : node => blen pre + blen form <= n_st nd) rest).
+Proof. exact find_xml_hex_roundtrip. Qed.
+Print Assumptions C02_layer_xml_found.
+
+Theorem C02_layer_reverse_found : forall (nm : bytes) (pre : list N) (ws1 : bytes) (q : N) (p ws2 : bytes) (suf : list N), lower nm = s2b "reverse(" \/ lower nm = s2b "reversed(" -> ws_ok ws1 = true -> ws_ok ws2 = true -> is_quote q -> lit_ok q p = true -> (Datatypes.length p + Datatypes.length ws1 + Datatypes.length ws2 + 100 <= Backtrack.default_fuel)%nat -> neutral Regexes.RE_reverse_REVERSE_RE pre = true -> let form := nm ++ ws1 ++ quoted q (rev p) ++ ws2 ++ s2b ")" in let data := pre ++ form ++ suf in find_reverse data = Hang \/ (exists rest : list node, find_reverse data = Ok (Node (s2b "string") p (s2b "reverse") (blen pre) (blen pre + blen form) [] :: rest) /\ Forall (fun nd : node => blen pre + blen form <= n_st nd) rest).
+Proof. exact find_reverse_roundtrip. Qed.
+Print Assumptions C02_layer_reverse_found.
+
+Theorem C02_layer_strreverse_found : forall (nm : bytes) (pre : list N) (ws1 : bytes) (q : N) (p ws2 : bytes) (suf : list N), lower nm = s2b "strreverse(" -> ws_ok ws1 = true -> ws_ok ws2 = true -> is_quote q -> lit_ok q p = true -> (Datatypes.length p + Datatypes.length ws1 + Datatypes.length ws2 + 100 <= Backtrack.default_fuel)%nat -> neutral Regexes.RE_vba_STRREVERSE_RE pre = true -> let form := nm ++ ws1 ++ quoted q (rev p) ++ ws2 ++ s2b ")" in let data := pre ++ form ++ suf in find_strreverse data = Hang \/ (exists rest : list node, find_strreverse data = Ok (Node (s2b "vba.string") p (s2b "vba.reverse") (blen pre) (blen pre + blen form) [] :: rest) /\ Forall (fun nd : node => blen pre + blen form <= n_st nd) rest).
+Proof. exact find_strreverse_roundtrip. Qed.
+Print Assumptions C02_layer_strreverse_found.
+
+Theorem C02_layer_replace_found : forall (pre : list N) (q : N) (p c : bytes) (t : N) (tok' suf : list N), let tok := t :: tok' in let x := py_replace p c tok in is_quote q -> lit_ok q p = true -> lit_ok q c = true -> lit_ok q tok = true -> c <> [] -> ~ In t p -> (Datatypes.length x + Datatypes.length tok + Datatypes.length c + 201 <= Backtrack.default_fuel)%nat -> neutral Regexes.RE_replace_REPLACE_RE pre = true -> let form := quoted q x ++ s2b ".replace(" ++ quoted q tok ++ s2b ", " ++ quoted q c ++ s2b ")" in let data := pre ++ form ++ suf in find_replace data = Hang \/ (exists rest : list node, find_replace data = Ok (Node (s2b "string") p (s2b "replace") (blen pre) (blen pre + blen form) [] :: rest) /\ Forall (fun nd : node => blen pre + blen form <= n_st nd) rest).
+Proof. exact find_replace_decodes. Qed.
+Print Assumptions C02_layer_replace_found.
+
+Theorem C02_layer_vba_replace_found : forall (pre : list N) (q : N) (p c : bytes) (t : N) (tok' suf : list N), let tok := t :: tok' in let x := py_replace p c tok in is_quote q -> lit_ok q p = true -> lit_ok q c = true -> lit_ok q tok = true -> c <> [] -> ~ In t p -> (Datatypes.length x + Datatypes.length tok + Datatypes.length c + 202 <= Backtrack.default_fuel)%nat -> neutral Regexes.RE_replace_VBA_REPLACE_RE pre = true -> let form := s2b "Replace(" ++ quoted q x ++ s2b ", " ++ quoted q tok ++ s2b ", " ++ quoted q c ++ s2b ")" in let data := pre ++ form ++ suf in find_vba_replace data = Hang \/ (exists rest : list node, find_vba_replace data = Ok (Node (s2b "vba.string") p (s2b "vba.replace") (blen pre) (blen pre + blen form) [] :: rest) /\ Forall (fun nd : node => blen pre + blen form <= n_st nd) rest).
+Proof. exact find_vba_replace_decodes. Qed.
+Print Assumptions C02_layer_vba_replace_found.
+
+Theorem C02_layer_ps_replace_found : forall (pre : list N) (q : N) (p c : bytes) (t : N) (tok' : list N) (suf : bytes), let tok := t :: tok' in let x := py_replace p c tok in is_quote q -> lit_ok q p = true -> lit_ok q c = true -> lit_ok q tok = true -> c <> [] -> ~ In t p -> stop_q q suf = true -> (Datatypes.length x + Datatypes.length tok + Datatypes.length c + 202 <= Backtrack.default_fuel)%nat -> neutral Regexes.RE_replace_POWERSHELL_REPLACE_RE pre = true -> let form := quoted q x ++ s2b " -replace " ++ quoted q tok ++ s2b "," ++ quoted q c in let data := pre ++ form ++ suf in find_powershell_replace data = Hang \/ (exists rest : list node, find_powershell_replace data = Ok (Node (s2b "powershell.string") p (s2b "replace") (blen pre) (blen pre + blen form) [] :: rest) /\ Forall (fun nd : node => blen pre + blen form <= n_st nd) rest).
+Proof. exact find_powershell_replace_decodes. Qed.
+Print Assumptions C02_layer_ps_replace_found.
+
+Theorem C02_layer_concat_found : forall (pre : list N) (q : N) (p : bytes) (js : list cpart) (suf : bytes), is_quote q -> part_ok p = true -> Forall cpart_ok js -> js <> [] -> concat_stop (last_q q js) suf = true -> (Datatypes.length (concat_form q p js) + Datatypes.length (take_wsu suf) + 150 <= Backtrack.default_fuel)%nat -> neutral Regexes.RE_concat_CONCAT_RE pre = true -> let form := concat_form q p js in let data := pre ++ form ++ suf in find_concat data = Hang \/ (exists rest : list node, find_concat data = Ok (Node (s2b "string") (concat_payload p js) (s2b "concatenation") (blen pre) (blen pre + blen form) [] :: rest) /\ Forall (fun nd : node => blen pre + blen form <= n_st nd) rest).
+Proof. exact find_concat_roundtrip. Qed.
+Print Assumptions C02_layer_concat_found.
 
 Example C02_example :
   a2b_base64 (b64_encode (L"GET http://evil.example.com/payload.exe now")) = Ok (L"GET http://evil.example.com/payload.exe now")
